@@ -20,7 +20,7 @@ simk::define_interposers!();
 #[global_allocator]
 static ALLOC: slog::CountingAlloc = slog::CountingAlloc;
 
-const VR: &str = "/verif/work/vr";
+use simk::rk::*;
 const TMPD: &str = "/verif/work/sp";
 
 fn unhex(s: &str) -> Vec<u8> {
@@ -28,181 +28,6 @@ fn unhex(s: &str) -> Vec<u8> {
 }
 fn os(s: &str) -> OsString {
     OsString::from_vec(unhex(s))
-}
-
-/// (fd, ino, acc, pos, cloexec) of every open descriptor of this process
-fn fd_table() -> Vec<Value> {
-    let mut v = vec![];
-    let mut names: Vec<i32> = fs::read_dir("/proc/self/fd")
-        .unwrap()
-        .filter_map(|e| e.ok()?.file_name().to_str()?.parse().ok())
-        .collect();
-    names.sort();
-    for fd in names {
-        let target = match fs::read_link(format!("/proc/self/fd/{}", fd)) {
-            Ok(t) => t.to_string_lossy().into_owned(),
-            Err(_) => continue,
-        };
-        if target.starts_with("/proc/") && target.ends_with("/fd") {
-            continue;
-        }
-        let mut st: libc::stat = unsafe { std::mem::zeroed() };
-        if unsafe { libc::fstat(fd, &mut st) } != 0 {
-            continue;
-        }
-        let fl = unsafe { simk::raw::fcntl(fd, libc::F_GETFD, 0) };
-        let info = fs::read_to_string(format!("/proc/self/fdinfo/{}", fd)).unwrap_or_default();
-        let (mut pos, mut flags) = (0i64, 0i64);
-        for l in info.lines() {
-            if let Some(x) = l.strip_prefix("pos:") {
-                pos = x.trim().parse().unwrap_or(0);
-            }
-            if let Some(x) = l.strip_prefix("flags:") {
-                flags = i64::from_str_radix(x.trim(), 8).unwrap_or(0);
-            }
-        }
-        v.push(json!([fd, st.st_ino as i64, flags & 3, pos, fl & libc::FD_CLOEXEC != 0]));
-    }
-    v
-}
-
-fn sys_events(out: &mut Vec<String>) -> (bool, Vec<u32>) {
-    let mut forked = false;
-    let mut child_pids = vec![];
-    // The forked child may log before the parent's fork() has returned and been logged: put each
-    // fork record in front of the first record of the child it created.
-    let mut recs = slog::records();
-    let mut i = 0;
-    while i < recs.len() {
-        if recs[i].kind == slog::K_FORK && recs[i].ret > 0 {
-            let pid = recs[i].ret as u32;
-            if let Some(j) = recs[..i].iter().position(|r| r.proc_ == pid) {
-                let f = recs.remove(i);
-                recs.insert(j, f);
-            }
-        }
-        i += 1;
-    }
-    for r in recs {
-        if r.kind == slog::K_FORK && r.ret > 0 {
-            forked = true;
-            child_pids.push(r.ret as u32);
-        }
-        let s = String::from_utf8_lossy(&r.s[..r.slen as usize]).into_owned();
-        out.push(
-            json!({"e":"sys","p": if r.proc_ == 0 {0} else {1}, "cp": r.proc_, "tid": r.tid,
-                "n": slog::KNAME[r.kind as usize], "a": r.a, "b": r.b, "c": r.c, "ret": r.ret, "errno": r.errno,
-                "s": s, "allocs": r.allocs})
-            .to_string(),
-        );
-    }
-    (forked, child_pids)
-}
-
-fn children_state() -> &'static str {
-    // any child of this process left? (raw: does not go through the interposers)
-    let mut st = 0;
-    let r = unsafe { simk::raw::wait4(-1, &mut st, libc::WNOHANG) };
-    if r > 0 {
-        "zombie"
-    } else if r == 0 {
-        // give a just-killed child a moment to die, then look again
-        std::thread::sleep(std::time::Duration::from_millis(30));
-        let r2 = unsafe { simk::raw::wait4(-1, &mut st, libc::WNOHANG) };
-        if r2 > 0 {
-            "zombie"
-        } else if r2 == 0 {
-            // reap it so that it cannot disturb the next scenario
-            unsafe {
-                libc::kill(0, 0);
-            }
-            "running"
-        } else {
-            "none"
-        }
-    } else {
-        "none"
-    }
-}
-
-// ---- hang watchdog ---------------------------------------------------------------------------
-// A leaked pipe end shows up as a hang (create() waiting on the launch-status pipe, or a child
-// never seeing end-of-file).  A real-time alarm fires after WATCHDOG_S seconds of one scenario
-// (normal duration: milliseconds); the handler records which of our children hold which pipes on
-// descriptors above 2 -- the evidence the monitor judges -- and kills them so the run continues.
-const WATCHDOG_S: u32 = 20;
-static mut WATCHDOG: Vec<String> = Vec::new();
-
-fn my_children() -> Vec<i32> {
-    let mut v = vec![];
-    if let Ok(rd) = fs::read_dir("/proc") {
-        let me = std::process::id();
-        for e in rd.flatten() {
-            if let Some(pid) = e.file_name().to_str().and_then(|s| s.parse::<i32>().ok()) {
-                if let Ok(st) = fs::read_to_string(format!("/proc/{}/stat", pid)) {
-                    if let Some(rest) = st.rsplit(')').next() {
-                        let f: Vec<&str> = rest.split_whitespace().collect();
-                        if f.len() > 2 && f[1].parse::<u32>().ok() == Some(me) {
-                            v.push(pid);
-                        }
-                    }
-                }
-            }
-        }
-    }
-    v
-}
-
-extern "C" fn on_alarm(_s: i32) {
-    let mut holders = vec![];
-    for pid in my_children() {
-        let mut inos = vec![];
-        if let Ok(rd) = fs::read_dir(format!("/proc/{}/fd", pid)) {
-            for e in rd.flatten() {
-                let fd: i32 = e.file_name().to_str().and_then(|s| s.parse().ok()).unwrap_or(-1);
-                if fd > 2 {
-                    if let Ok(t) = fs::read_link(e.path()) {
-                        let t = t.to_string_lossy().into_owned();
-                        if let Some(x) = t.strip_prefix("pipe:[") {
-                            if let Ok(i) = x.trim_end_matches(']').parse::<i64>() {
-                                inos.push(i);
-                            }
-                        }
-                    }
-                }
-            }
-        }
-        holders.push(json!([pid, inos]));
-        unsafe {
-            simk::raw::kill(pid, 9);
-        }
-    }
-    unsafe {
-        (*std::ptr::addr_of_mut!(WATCHDOG)).push(json!({"e":"watchdog","holders":holders}).to_string());
-    }
-}
-
-fn kill_all_children() {
-    // used after a scenario left a running child behind
-    if let Ok(rd) = fs::read_dir("/proc") {
-        let me = std::process::id();
-        for e in rd.flatten() {
-            if let Some(pid) = e.file_name().to_str().and_then(|s| s.parse::<i32>().ok()) {
-                if let Ok(st) = fs::read_to_string(format!("/proc/{}/stat", pid)) {
-                    if let Some(rest) = st.rsplit(')').next() {
-                        let f: Vec<&str> = rest.split_whitespace().collect();
-                        if f.len() > 2 && f[1].parse::<u32>().ok() == Some(me) {
-                            unsafe {
-                                simk::raw::kill(pid, 9);
-                                let mut s = 0;
-                                simk::raw::wait4(pid, &mut s, 0);
-                            }
-                        }
-                    }
-                }
-            }
-        }
-    }
 }
 
 struct Files {
@@ -298,36 +123,6 @@ fn fault_of(v: &Value) -> Option<Fault> {
     })
 }
 
-fn read_report(pid: u32) -> Option<Value> {
-    let p = format!("{}/{}.json", VR, pid);
-    for _ in 0..200 {
-        if let Ok(s) = fs::read_to_string(&p) {
-            if let Ok(v) = serde_json::from_str::<Value>(&s) {
-                let _ = fs::remove_file(&p);
-                return Some(v);
-            }
-        }
-        std::thread::sleep(std::time::Duration::from_millis(5));
-    }
-    None
-}
-
-fn compact_report(r: &Value) -> Value {
-    let fds: Vec<Value> = r["fds"]
-        .as_array()
-        .unwrap()
-        .iter()
-        .map(|f| json!([f["fd"], f["ino"], f["acc"], f["pos"], f["cloexec"]]))
-        .collect();
-    json!({"e":"report","pid":r["pid"],"argv":r["argv"],"env":r["env"],"cwd":r["cwd"],"exe":r["exe"],
-        "ruid":r["ruid"],"euid":r["euid"],"suid":r["suid"],"rgid":r["rgid"],"egid":r["egid"],"sgid":r["sgid"],
-        "pgid_is_pid": r["pgid"] == r["pid"], "pgid_is_parent_pgid": r["pgid"].as_i64() == Some(unsafe { libc::getpgid(0) } as i64),
-        "sigblk":r["sigblk"],"sigign":r["sigign"],
-        "sigpipe_ignored": u64::from_str_radix(r["sigign"].as_str().unwrap_or("0"), 16).unwrap_or(0) & (1 << 12) != 0,
-        "mask_empty": u64::from_str_radix(r["sigblk"].as_str().unwrap_or("0"), 16).unwrap_or(1) == 0,
-        "fds":fds})
-}
-
 fn one_spawn(v: &Value, files: &mut Files, out: &mut Vec<String>, idx: usize) {
     let mut argv: Vec<OsString> = v["argv"].as_array().unwrap().iter().map(|a| os(a.as_str().unwrap())).collect();
     let mut cfg = PopenConfig::default();
@@ -421,26 +216,13 @@ fn one_spawn(v: &Value, files: &mut Files, out: &mut Vec<String>, idx: usize) {
 }
 
 fn run_one(v: &Value, out: &mut Vec<String>) {
-    unsafe {
-        libc::signal(libc::SIGALRM, on_alarm as usize);
-        let tv = libc::itimerval {
-            it_interval: libc::timeval { tv_sec: 3, tv_usec: 0 },
-            it_value: libc::timeval { tv_sec: WATCHDOG_S as i64, tv_usec: 0 },
-        };
-        libc::setitimer(libc::ITIMER_REAL, &tv, std::ptr::null_mut());
-    }
+    watchdog_arm();
     run_one_inner(v, out);
-    unsafe {
-        let off: libc::itimerval = std::mem::zeroed();
-        libc::setitimer(libc::ITIMER_REAL, &off, std::ptr::null_mut());
-        let w = &mut *std::ptr::addr_of_mut!(WATCHDOG);
-        if !w.is_empty() {
-            // insert the watchdog observations before the post/end events
-            let at = out.len().saturating_sub(2);
-            for (k, l) in w.drain(..).enumerate() {
-                out.insert(at + k, l);
-            }
-        }
+    let w = watchdog_disarm();
+    // insert the watchdog observations before the post/end events
+    let at = out.len().saturating_sub(2);
+    for (k, l) in w.into_iter().enumerate() {
+        out.insert(at + k, l);
     }
 }
 
